@@ -67,6 +67,13 @@ class Funcs:
     def hyp(self, x, y):
         return x * x + y * y
 
+    def flaky(self, x):
+        """a user function that can fail while an expression is being EVALUATED (fault point of the harness)"""
+        t = self.__dict__.get("_trace")
+        if t is not None:
+            t.attempt(("f", ("a", "flaky")), "e")
+        return x + 1
+
     def scale(self, x, unit):
         return x * {"m": 1, "k": 1000}[unit]
 
